@@ -103,10 +103,8 @@ pub fn rich_metadata(bytes: &[u8], all: bool) -> Vec<u8> {
     if all {
         blocks.insert(Application { id: 0x61707031, data: vec![9; 5] });
         blocks.insert(Picture { picture_type: PictureType::FrontCover, media_type: "image/png".into(), description: "d".into(), width: 1, height: 1, color_depth: 24, colors_used: None, data: vec![0x89, b'P', b'N', b'G'] });
-        let cue = "FILE \"a.wav\" WAVE\n  TRACK 01 AUDIO\n    INDEX 01 00:00:00\n";
-        if let Ok(c) = Cuesheet::parse(21, cue) {
-            blocks.insert(c);
-        }
+        let cue = "CATALOG 1234567890123\nFILE \"a.wav\" WAVE\n  TRACK 01 AUDIO\n    ISRC ABCDE1234567\n    INDEX 01 00:00:00\n";
+        blocks.insert(Cuesheet::parse(176400, cue).expect("corpus cue sheet"));
     }
     let mut out = Vec::new();
     write_blocks(&mut out, blocks.blocks()).unwrap();
@@ -143,6 +141,27 @@ pub fn damage_corpus(quick: bool) -> Vec<TestFile> {
         let bytes = encode(WriterKind::Sample, &Opt { seek: Seek::Frames(1), pad: Pad::Size(6), ..Opt::base16() }, &sig, &pcm).expect("corpus encode");
         v.push(from_bytes("enc-ch2-bps16-rich-metadata".into(), rich_metadata(&bytes, true), true));
         v.push(from_bytes("enc-ch2-bps16-comment-only".into(), rich_metadata(&bytes, false), true));
+    }
+    // files without a stored digest (what other encoders / streaming encoders write): verify has nothing to compare
+    {
+        let sig = Sig { rate: 44100, bps: 16, ch: 2 };
+        let pcm = ident_pcm(2, 16, 16 * 2 + 5);
+        let bytes = encode(WriterKind::Sample, &Opt { seek: Seek::Off, pad: Pad::Size(6), ..Opt::base16() }, &sig, &pcm).expect("corpus encode");
+        let strip = |b: &[u8], known: bool| -> Vec<u8> {
+            let mut blocks = BlockList::read(b).expect("blocklist");
+            let mut old = Vec::new();
+            write_blocks(&mut old, blocks.blocks()).unwrap();
+            blocks.streaminfo_mut().md5 = None;
+            if !known {
+                blocks.streaminfo_mut().total_samples = None;
+            }
+            let mut out = Vec::new();
+            write_blocks(&mut out, blocks.blocks()).unwrap();
+            out.extend_from_slice(&b[old.len()..]);
+            out
+        };
+        v.push(from_bytes("enc-ch2-bps16-no-md5".into(), strip(&bytes, true), true));
+        v.push(from_bytes("enc-ch2-bps16-no-md5-unknown-total".into(), strip(&bytes, false), false));
     }
     // grammar-built: every subframe kind, stereo mode, residual coding
     let mut push = |desc: String, spec: fgen::StreamSpec| {
